@@ -72,7 +72,7 @@ def run(ctx):
     configs.append(jax_stitch)
     if not ctx.thorough:
         configs = configs[:4] + [configs[4 + ctx.seed % 4]]
-    nfit = ctx.n(24, 400)
+    nfit = ctx.n(24, 280)
     for i in range(nfit):
         kind = rng.choice(['single', 'multi', 'generated', 'shapesys']) if i >= 4 else 'shapesys'   # the first four cases are directed: values on bounds
         if kind == 'single':
